@@ -533,8 +533,9 @@ func verifC12Monitor(tr *verifC12Truth, p *verifC12Plan, q *verifC12Query, wellF
 		}
 	case "gap":
 		resp, last := tr.gap(ec, a, tc)
-		if p.Odd {
-			break // stores with undecodable values: the scan may legitimately fail; compared with the model only
+		if p.Odd && q.Code != 0 {
+			break // stores with undecodable values: the scan of such a stream may legitimately FAIL (an error is not a report);
+			// when it does answer, the answer must be exact like any other ("report exactly the sequences present or missing")
 		}
 		if q.Code != 0 || !verifC12EqU64(resp, q.Resp) || q.Last != last || q.First != 0 {
 			mon = append(mon, fmt.Sprintf("gap of stream %d/%s/%d: code %d missing=%s first=%d last=%d, but that stream alone gives missing=%s first=0 last=%d",
